@@ -50,6 +50,26 @@ func condAtoms(v ssa.Value, truth bool, subst map[*ssa.Parameter]string, ifi *ss
 			if !truth {
 				op = negOp[op]
 			}
+			// validator(x) == nil: what the validator guarantees when it returns no error
+			if (op == "==" || op == "!=") && depth < 3 {
+				for _, pair := range [][2]ssa.Value{{x.X, x.Y}, {x.Y, x.X}} {
+					cst, isNil := pair[1].(*ssa.Const)
+					call, isCall := pair[0].(*ssa.Call)
+					if isNil && cst.Value == nil && isCall && op == "==" {
+						if cc := call.Call.StaticCallee(); cc != nil && errorValidator(cc) {
+							ns := map[*ssa.Parameter]string{}
+							for i, p := range cc.Params {
+								if i < len(call.Call.Args) {
+									ns[p] = exprDepth(call.Call.Args[i], subst, 0)
+								}
+							}
+							l, r := exprDepth(x.X, subst, 0), exprDepth(x.Y, subst, 0)
+							at := []Atom{{L: l, Op: op, R: r, If: ifi}}
+							return append(at, impliedNilAtoms(cc, ns, ifi, depth+1)...)
+						}
+					}
+				}
+			}
 			l, r := exprDepth(x.X, subst, 0), exprDepth(x.Y, subst, 0)
 			// constants to the right
 			if _, isC := x.X.(*ssa.Const); isC {
@@ -708,5 +728,112 @@ func DominatingConds(blk *ssa.BasicBlock) map[ssa.Value]bool {
 			}
 		}
 	}
+	return out
+}
+
+// errorValidator: a small loop-free module function with a single result of type error and no effect other than
+// building its error value.
+func errorValidator(fn *ssa.Function) bool {
+	if fn == nil || len(fn.Blocks) == 0 || fn.Pkg == nil || !strings.HasPrefix(fn.Pkg.Pkg.Path(), ModPath) {
+		return false
+	}
+	if fn.Signature.Results().Len() != 1 || fn.Signature.Results().At(0).Type().String() != "error" {
+		return false
+	}
+	for _, b := range fn.Blocks {
+		if NaturalLoop(b) != nil {
+			return false
+		}
+	}
+	ok, n := true, 0
+	Instrs(fn, func(in ssa.Instruction) {
+		n++
+		switch x := in.(type) {
+		case *ssa.MapUpdate, *ssa.Go, *ssa.Defer, *ssa.Send, *ssa.Panic:
+			ok = false
+		case *ssa.Store:
+			// packaging of variadic arguments into a local array is not an effect
+			base := x.Addr
+			for d := 0; d < 4; d++ {
+				if ia, isIA := base.(*ssa.IndexAddr); isIA {
+					base = ia.X
+					continue
+				}
+				break
+			}
+			if _, isA := base.(*ssa.Alloc); !isA {
+				ok = false
+			}
+		}
+	})
+	return ok && n < 60
+}
+
+// impliedNilAtoms: the atoms that hold on every path of fn that returns a nil error.
+func impliedNilAtoms(fn *ssa.Function, subst map[*ssa.Parameter]string, ifi *ssa.If, depth int) []Atom {
+	var sets [][]Atom
+	Instrs(fn, func(in ssa.Instruction) {
+		r, ok := in.(*ssa.Return)
+		if !ok || len(r.Results) != 1 {
+			return
+		}
+		switch x := r.Results[0].(type) {
+		case *ssa.Const:
+			if x.Value == nil {
+				sets = append(sets, factsAtBlockSubst(r.Block(), subst, depth))
+			}
+		case *ssa.Phi:
+			for i, e := range x.Edges {
+				if cst, isC := e.(*ssa.Const); isC && cst.Value == nil {
+					pred := x.Block().Preds[i]
+					sets = append(sets, append(edgeAtoms(pred, x.Block(), subst, depth), factsAtBlockSubst(pred, subst, depth)...))
+				} else if !isC {
+					sets = append(sets, nil) // unknown value: may be nil with no guarantee
+				}
+			}
+		default:
+			// an error built on the spot is non-nil; anything else may be nil with nothing known about the path
+			nonNil := false
+			if call, isCall := x.(*ssa.Call); isCall {
+				if sc := call.Call.StaticCallee(); sc != nil && sc.Pkg != nil {
+					n := sc.Pkg.Pkg.Path() + "." + sc.Name()
+					nonNil = n == "fmt.Errorf" || n == "errors.New"
+				}
+			}
+			if _, isMI := x.(*ssa.MakeInterface); isMI {
+				nonNil = true
+			}
+			if !nonNil {
+				sets = append(sets, nil)
+			}
+		}
+	})
+	if len(sets) == 0 {
+		return nil
+	}
+	count := map[string]int{}
+	first := map[string]Atom{}
+	for _, st := range sets {
+		seen := map[string]bool{}
+		for _, a := range st {
+			k := a.String()
+			if !seen[k] {
+				seen[k] = true
+				count[k]++
+				if _, ok := first[k]; !ok {
+					first[k] = a
+				}
+			}
+		}
+	}
+	var out []Atom
+	for k, n := range count {
+		if n == len(sets) {
+			a := first[k]
+			a.If = ifi
+			out = append(out, a)
+		}
+	}
+	sort.Slice(out, func(i, j int) bool { return out[i].String() < out[j].String() })
 	return out
 }
